@@ -5,6 +5,7 @@ package dht
 import (
 	"context"
 	"strconv"
+	"strings"
 
 	"github.com/libp2p/go-libp2p/core/network"
 	"github.com/libp2p/go-libp2p/core/peer"
@@ -351,3 +352,97 @@ func VfValueHandlers() {
 }
 
 var _ = vfRegister("VfValueHandlers", VfValueHandlers)
+
+// vfAddrLen: the byte length the engine gives to the binary form of a marker
+// address (keyed by the raw value of its first component).
+var vfAddrLen = map[string]int{}
+
+// vfAddrOfLen returns an address whose binary form has exactly L bytes.
+// Natively it is a real /dns address with a name of the right length; in the
+// engine it is a small marker address whose Bytes() is an opaque slice of
+// (symbolic) length L, see vfModelAddrBytes.
+func vfAddrOfLen(tag, L int) ma.Multiaddr {
+	if !vfInterpreted() {
+		n := L - 3 // code, two length bytes, name (128 <= n < 16384)
+		if n < 128 || n >= 16384 {
+			panic("vfAddrOfLen: length out of the supported range")
+		}
+		c, err := ma.NewComponent("dns", strings.Repeat("a", n))
+		if err != nil {
+			panic(err)
+		}
+		return ma.Multiaddr{*c}
+	}
+	a := vfAddr(tag)
+	vfAddrLen[string(a[0].RawValue())] = L
+	return a
+}
+
+func vfModelAddrBytes(m ma.Multiaddr) []byte {
+	if len(m) > 0 {
+		if L, ok := vfAddrLen[string(m[0].RawValue())]; ok {
+			return vfOpaque("addrBytes", L)
+		}
+	}
+	var out []byte
+	for _, c := range m {
+		out = append(out, c.Bytes()...)
+	}
+	return out
+}
+
+//verif:intercept VfGetProvidersSize (github.com/multiformats/go-multiaddr.Multiaddr).Bytes = vfModelAddrBytes
+
+// VfGetProvidersSize (C09): the response the real GET_PROVIDERS handler builds
+// from a full provider store stays within the transport limit. N providers
+// share one address whose encoded length is symbolic, the closer peers'
+// address lengths are symbolic too, so the solver looks for the sizes at which
+// the records, their framing and the rest of the message add up past the limit.
+func VfGetProvidersSize() {
+	N, C := vfParam("N"), vfParam("C")
+	vfHashReal()
+	e := vfNewEnv(C, 3, 1)
+	ids := e.vfFillTable(C)
+	nc := 0
+	for i, id := range ids {
+		if e.dht.routingTable.Find(id) == "" {
+			continue
+		}
+		nc++
+		e.ps.addrs[id] = []ma.Multiaddr{vfAddrOfLen(10+i, vfRange("closerAddrLen"+strconv.Itoa(i), 200, 8200))}
+	}
+	key := make([]byte, 34)
+	key[0], key[1] = 0x12, 0x20
+	n := N - vfChoose("fewerProviders", 2)
+	// provider records from a few bytes under to a few bytes over the 8 KiB
+	// record bound (concrete candidates: N-fold sums of a symbolic length are
+	// multiplications the bit-vector solver does not finish)
+	provLen := 8192 - 24 + vfChoose("providerAddrLen", 10)
+	if vfParam("SYM") == 1 {
+		provLen = vfRange("providerAddrLenSym", 8000, 8200)
+	}
+	provAddr := vfAddrOfLen(99, provLen)
+	provs := make([]peer.AddrInfo, n)
+	for i := range provs {
+		provs[i] = peer.AddrInfo{ID: peer.ID("provider-" + strconv.Itoa(1000+i)), Addrs: []ma.Multiaddr{provAddr}}
+	}
+	e.provs.have[string(key)] = provs
+
+	req := pb.NewMessage(pb.Message_GET_PROVIDERS, key, 0)
+	resp, err := e.dht.handleGetProviders(context.Background(), peer.ID("requester"), req)
+	vfAssert(err == nil && resp != nil, "getproviders/answers-valid-request")
+	if resp == nil {
+		return
+	}
+	vfAssert(vfMessageSize(resp) <= network.MessageSizeMax, "getproviders/response-within-transport-limit")
+	vfAssert(len(resp.CloserPeers) == nc, "getproviders/closer-peers-kept")
+	vfAssert(len(resp.ProviderPeers) <= n, "getproviders/only-stored-providers")
+	// records are dropped only for lack of room: one more would not have fitted
+	if len(resp.ProviderPeers) < n && len(resp.ProviderPeers) > 0 {
+		last := vfMsgPeerSize(resp.ProviderPeers[0])
+		vfAssert(vfMessageSize(resp)+1+vfVarintLen(uint64(last))+last > network.MessageSizeMax, "getproviders/records-dropped-only-for-lack-of-room")
+	}
+	vfReach("getproviderssize/end")
+}
+
+var _ = vfRegister("VfGetProvidersSize", VfGetProvidersSize)
